@@ -195,7 +195,11 @@ Definition getter_kinds : list kind :=
 Definition line_dbg (p : profile) (k : kind) (m : mem) (t : tref) : string :=
   line "debug" (getter_name k ++ " " ++ sDbg (dbg_kind p k m t)).
 Definition lines_some (p : profile) (k : kind) (m : mem) (t : tref) : list string :=
-  (line "get" (getter_name k ++ " some " ++ sTref k t) :: lines_kind p k m t ++ [line_dbg p k m t])%list.
+  (* as_bytes(): the whole structure incl. padding; payload(): behind the 8-byte header; header(), as_ptr(): its start *)
+  (line "get" (getter_name k ++ " some " ++ sTref k t ++ " bytes=" ++ sTref k t
+               ++ " payload=" ++ sView (t_off t + 8) (tref_size_of_val k t - 8)
+               ++ " header=@" ++ sN (t_off t) ++ " ptr=@" ++ sN (t_off t))
+   :: lines_kind p k m t ++ [line_dbg p k m t])%list.
 
 Definition lines_get (p : profile) (k : kind) (m : mem) (r : dref) : list string :=
   let nm := getter_name k in
